@@ -480,9 +480,24 @@ func (x *c15Runner) run(c c15Case, root *c15Root) (outcome string) {
 	}
 	key := kb.String()
 	if root.baseline == nil || root.key != key || !c15SameList(c15List(dirs), root.baseline) {
-		for _, d := range dirs {
+		// d1 is a plain directory; d2 is reached through a symbolic link (a mounted disk linked into the data
+		// directory): everything that names d2 goes through the link
+		for i, d := range dirs {
 			if err := os.RemoveAll(d); err != nil {
 				vk.Fatalf("C15 wipe: %v", err)
+			}
+			if i == 1 {
+				real := filepath.Join(root.dir, "disk2-real")
+				if err := os.RemoveAll(real); err != nil {
+					vk.Fatalf("C15 wipe: %v", err)
+				}
+				if err := os.MkdirAll(real, 0o755); err != nil {
+					vk.Fatalf("C15 mkdir: %v", err)
+				}
+				if err := os.Symlink(real, d); err != nil {
+					vk.Fatalf("C15 symlink: %v", err)
+				}
+				continue
 			}
 			if err := os.MkdirAll(d, 0o755); err != nil {
 				vk.Fatalf("C15 mkdir: %v", err)
